@@ -14,7 +14,7 @@ func init() {
 		ID:          "C01",
 		Explanation: "(R1.1) Solver.Solve can only return Sat or Unsat: the range of every value that can flow into the status, minus what the loop guard excludes, is {Sat, Unsat}, on every path; (R1.2) every clause stored in the clause database (problem clauses and learned clauses) is registered in the watch lists by the function that stores it; (R1.4) every learned clause dropped from the database is removed from the watch lists in the same step; (R1.5) the model published by Solve is a fresh copy taken when Sat is concluded, never an alias of the working assignment.",
 		NotDecided:  "that the verdict is right and the model satisfies every clause: this depends on watch positions, learning, restarts and deletion timing, i.e. on the search history.",
-		Rules:       []ruleFn{ruleR1_1, ruleR1_2, ruleR1_4, ruleR1_5, ruleR1_7, ruleR1_8, ruleR1_9, ruleR1_10, ruleR1_11, ruleR1_12, ruleR1_13, ruleR2_2, ruleR2_6, ruleR2_7, ruleR2_8, ruleR14_3, ruleR13_7, ruleR1_14, ruleR1_15},
+		Rules:       []ruleFn{ruleR1_1, ruleR1_2, ruleR1_4, ruleR1_5, ruleR1_7, ruleR1_8, ruleR1_9, ruleR1_10, ruleR1_11, ruleR1_12, ruleR1_13, ruleR2_2, ruleR2_6, ruleR2_7, ruleR2_8, ruleR14_3, ruleR13_7, ruleR1_14, ruleR1_15, ruleR1_16, ruleR13_12},
 	})
 }
 
